@@ -795,10 +795,12 @@ def judge_ok(acc, spec, model, cfg, ctx, text):
         # paths
         if "paths" in om:
             if spec["mode"] != "paths":  # with pathline input the code documents them as exclusive
-                acc.clause("declared")
+                # Observational only: the statement of C19 says nothing about declared
+                # [output] paths (the code treats input and output pathlines as mutually
+                # exclusive), so a dropped value is recorded in the notes, not as a verdict.
                 got = out.get("paths")
                 if not (is_seq(got) and len(got) == len(om["paths"])):
-                    V("declared", {"table": "output", "key": "paths", "form": "declared_value_dropped" if got is None else "value_not_as_declared"}, got=short(got), expected=short(om["paths"]))
+                    acc.res["notes"]["observed_output_paths_dropped"] = acc.res["notes"].get("observed_output_paths_dropped", 0) + 1
         else:
             acc.clause("default")
             if out.get("paths"):
